@@ -42,7 +42,7 @@ def _replay(name, law):
             "pyfloat": "bad = not same(float(t.tsukamoto(float(y))), float(t.tsukamoto(np.array(y))), 0.0)",
             "arrays": "ya = np.array([y, y2]); r = t.tsukamoto(ya); y0d = np.array(y); t.tsukamoto(y0d);"
                       " bad = not same(r, [z, z2], 0.0) or not same(ya, [y, y2]) or not same(y0d, y)\n"
-                      "for A in (np.array([y]), np.array([[y]]), np.array([[y], [y2]]), np.array([[y, y2]])):\n"
+                      "for A in (np.array([y]), np.array([[y]]), np.array([[y], [y2]]), np.array([[y, y2]]), np.array([[y, y, y2], [y2, y, y2]]).T):\n"
                       "    rs = t.tsukamoto(A); bad = bad or np.shape(rs) != A.shape or not same(rs, np.vectorize(lambda q: float(t.tsukamoto(q)))(A), 0.0)",
         }[law])
         lines.append(f"verdict(bad, '{name}.{law}: tsukamoto(%r) = %r, membership back = %r; tsukamoto(%r) = %r' % (y, z, float(t.membership(z)), y2, z2))")
@@ -262,6 +262,8 @@ def ob_arrays(name, tier):
             # arrays with one element or axes of length one keep their shape
             shapes = ([ys[0]], [[ys[0]]], [[ys[0]], [ys[1]]], [[ys[0], ys[1]]])
             sing = [(t.tsukamoto(sym_array(a)), np.shape(np.array(a, dtype=object))) for a in shapes]
+            # memory layout: a transposed view (Fortran order) of a 2x3 array holds the same logical elements
+            sing.append((t.tsukamoto(sym_array([[ys[0], ys[0], ys[1]], [ys[1], ys[0], ys[1]]]).T), (3, 2)))
             return r, [t.tsukamoto(y) for y in ys], A, r2, sing
 
         for p in ob.paths(pre, body):
@@ -273,7 +275,8 @@ def ob_arrays(name, tier):
             if wrong:
                 ob.prove(pre, p, False, f"{name}/arrays/singleton-shape {wrong[0]}", ins, _replay(name, "arrays"))
                 continue
-            ob.prove(pre, p, z3.And([all_same(a, e[:int(np.prod(shp))]) for a, shp in sing]), f"{name}/arrays/singleton-axes", ins, _replay(name, "arrays"))
+            ob.prove(pre, p, z3.And([all_same(a, [e[0], e[1], e[0], e[0], e[1], e[1]] if shp == (3, 2) else e[:int(np.prod(shp))]) for a, shp in sing]),
+                     f"{name}/arrays/singleton-axes+layout", ins, _replay(name, "arrays"))
             if kind_of(r) != ("array", (n,)):
                 ob.prove(pre, p, False, f"{name}/arrays/shape {kind_of(r)}", ins, _replay(name, "arrays"))
                 continue
